@@ -441,8 +441,9 @@ def run(ctx):
                 'nodes (digraphs, DAGs, trees, DAG+defect, several components); distinct = distinct (graph, adapter, '
                 'raise flag, rule list); non-trivial = graph with >= 2 nodes and a non-empty rule list')
     ctx.trusted_extra = [
-        'NetworkX isolates / is_connected / DiGraph are modelled by their documented meaning (degree 0; every node '
-        'reachable from the first one), tied to the code only by the correspondence',
+        'NetworkX: DiGraph / Graph adjacency and isolates are modelled by their documented meaning (degree 0), the '
+        'breadth-first search of is_connected by a hand-copied literal model (Graph/RulesBfs.v); both are tied to the '
+        'code only by the correspondence',
         'graph_has_cycle, root_nodes, node_children, get_edges: the C12 models of Graph/Queries.v (imported)',
         'user rules are the harness\'s own callables; "raises something else" is sampled with TypeError, KeyError, '
         'RuntimeError',
